@@ -124,6 +124,9 @@ pub struct WriteAheadLog {
     file: tokio::fs::File,
     next_seq: u64,
     last_sync: Instant,
+    /// Set when a write to the current segment failed part-way: the segment may end
+    /// in an incomplete entry, so the next append must start a fresh segment.
+    needs_rotation: bool,
 }
 
 impl WriteAheadLog {
@@ -164,6 +167,7 @@ impl WriteAheadLog {
             file,
             next_seq,
             last_sync: Instant::now(),
+            needs_rotation: false,
         })
     }
 
@@ -229,14 +233,24 @@ impl WriteAheadLog {
         let header = encode_header(seq, 0, &payload);
         let entry_size = (header.len() + payload.len()) as u64;
 
-        if self.config.max_segment_size > 0
-            && self.current_size + entry_size > self.config.max_segment_size as u64
+        if self.needs_rotation
+            || (self.config.max_segment_size > 0
+                && self.current_size + entry_size > self.config.max_segment_size as u64)
         {
             self.rotate().await?;
+            self.needs_rotation = false;
         }
 
-        self.file.write_all(&header).await.map_err(map_io_error)?;
-        self.file.write_all(&payload).await.map_err(map_io_error)?;
+        // The reader stops at the first incomplete entry of a segment: after a failed
+        // write never append behind what may be a partial entry.
+        if let Err(e) = self.file.write_all(&header).await {
+            self.needs_rotation = true;
+            return Err(map_io_error(e));
+        }
+        if let Err(e) = self.file.write_all(&payload).await {
+            self.needs_rotation = true;
+            return Err(map_io_error(e));
+        }
         self.current_size += entry_size;
 
         match self.config.sync_mode {
